@@ -57,6 +57,89 @@ def contains_slash(t):
     return z3.Contains(t, SLASH)
 
 
+# --- structural helpers: most path terms are concatenations with literal
+# separators; deciding basename/dirname/join on the *structure* keeps word
+# equations away from the solver ---------------------------------------------
+def pieces(t):
+    """flatten a concat term into its pieces (literals merged)"""
+    if z3.is_app(t) and t.decl().kind() == z3.Z3_OP_SEQ_CONCAT:
+        out = []
+        for c in t.children():
+            out.extend(pieces(c))
+    else:
+        out = [t]
+    merged = []
+    for x in out:
+        lx = lit(x)
+        if lx is not None and merged and lit(merged[-1]) is not None:
+            merged[-1] = z3.StringVal(lit(merged[-1]) + lx)
+        elif lx == '':
+            continue
+        else:
+            merged.append(x)
+    return merged
+
+
+def cat(ps):
+    ps = [p for p in ps if lit(p) != '']
+    if not ps:
+        return EMPTY
+    if len(ps) == 1:
+        return ps[0]
+    return z3.Concat(*ps)
+
+
+def mark_noslash(ctx, t):
+    ctx.notes.setdefault('noslash', set()).add(t.get_id())
+
+
+def mark_nonempty(ctx, t):
+    ctx.notes.setdefault('nonempty', set()).add(t.get_id())
+
+
+def mark_noendslash(ctx, t):
+    """t is non-empty and does not end with '/' (caller has assumed it)"""
+    ctx.notes.setdefault('noendslash', set()).add(t.get_id())
+    ctx.notes.setdefault('nonempty', set()).add(t.get_id())
+
+
+def mark_slashes1(ctx, t):
+    """t is a non-empty run of '/' (caller has assumed it)"""
+    ctx.notes.setdefault('slashes1', set()).add(t.get_id())
+    ctx.notes.setdefault('nonempty', set()).add(t.get_id())
+
+
+def _sl1(ctx, t):
+    return ctx is not None and t.get_id() in ctx.notes.get('slashes1', ())
+
+
+def _nes(ctx, t):
+    i = t.get_id()
+    return i in ctx.notes.get('noendslash', ()) or (
+        i in ctx.notes.get('noslash', ()) and i in ctx.notes.get('nonempty', ()))
+
+
+def noslash(ctx, t):
+    for p in pieces(t):
+        l = lit(p)
+        if l is not None:
+            if '/' in l:
+                return False
+        elif p.get_id() not in ctx.notes.get('noslash', ()):
+            return False
+    return True
+
+
+def nonempty(ctx, t):
+    for p in pieces(t):
+        l = lit(p)
+        if l:
+            return True
+        if l is None and p.get_id() in ctx.notes.get('nonempty', ()):
+            return True
+    return False
+
+
 def split_last_slash(ctx, p):
     """returns (head, tail) with p = head ++ tail, tail has no '/', head is ''
     or ends with '/'  (posixpath.split before head stripping)."""
@@ -67,13 +150,41 @@ def split_last_slash(ctx, p):
     key = ('split_last', p.get_id())
     if key in ctx.notes:
         return ctx.notes[key]
-    h = ctx.fresh_str('hd')
-    t = ctx.fresh_str('tl')
-    ctx.assume(p == z3.Concat(h, t))
-    ctx.assume(z3.Not(z3.Contains(t, SLASH)))
-    ctx.assume(z3.Or(h == EMPTY, z3.SuffixOf(SLASH, h)))
-    ctx.notes[key] = (h, t)
-    return h, t
+    # structural fast path
+    ps = pieces(p)
+    tail = []
+    k = len(ps) - 1
+    res = None
+    while k >= 0:
+        x = ps[k]
+        lx = lit(x)
+        if lx is not None:
+            if '/' in lx:
+                i = lx.rfind('/') + 1
+                res = (cat(ps[:k] + [z3.StringVal(lx[:i])]),
+                       cat([z3.StringVal(lx[i:])] + tail))
+                break
+            tail.insert(0, x)
+        elif x.get_id() in ctx.notes.get('noslash', ()):
+            tail.insert(0, x)
+        elif _sl1(ctx, x):
+            res = (cat(ps[:k + 1]), cat(tail))
+            break
+        else:
+            break
+        k -= 1
+    if res is None and k < 0:
+        res = (EMPTY, cat(tail))
+    if res is None:
+        h = ctx.fresh_str('hd')
+        t = ctx.fresh_str('tl')
+        ctx.assume(p == z3.Concat(h, t))
+        ctx.assume(z3.Not(z3.Contains(t, SLASH)))
+        ctx.assume(z3.Or(h == EMPTY, z3.SuffixOf(SLASH, h)))
+        mark_noslash(ctx, t)
+        res = (h, t)
+    ctx.notes[key] = res
+    return res
 
 
 def basename(ctx, p):
@@ -88,13 +199,51 @@ def rstrip_slashes(ctx, h):
     key = ('rstrip', h.get_id())
     if key in ctx.notes:
         return ctx.notes[key]
-    d = ctx.fresh_str('rs')
-    s = ctx.fresh_str('sl')
-    ctx.assume(h == z3.Concat(d, s))
-    ctx.assume(z3.InRe(s, _ALL_SLASHES))
-    ctx.assume(z3.Not(z3.SuffixOf(SLASH, d)))
-    ctx.notes[key] = d
-    return d
+    ps = pieces(h)
+    res = None
+    while ps:
+        lx = lit(ps[-1])
+        if lx is not None:
+            st = lx.rstrip('/')
+            if st:
+                res = cat(ps[:-1] + [z3.StringVal(st)])
+                break
+            ps = ps[:-1]
+            continue
+        if _sl1(ctx, ps[-1]):
+            ps = ps[:-1]
+            continue
+        if _nes(ctx, ps[-1]):
+            res = cat(ps)
+        break
+    if res is None and not ps:
+        res = EMPTY
+    if res is None:
+        base = cat(ps)
+        bkey = ('rstrip', base.get_id())
+        if bkey in ctx.notes:
+            res = ctx.notes[bkey]
+        else:
+            d = ctx.fresh_str('rs')
+            sl = ctx.fresh_str('sl')
+            ctx.assume(base == z3.Concat(d, sl))
+            ctx.assume(z3.InRe(sl, _ALL_SLASHES))
+            ctx.assume(z3.Not(z3.SuffixOf(SLASH, d)))
+            ctx.notes[bkey] = d
+            res = d
+    ctx.notes[key] = res
+    return res
+
+
+def all_slashes(ctx, h):
+    """z3 Bool: h consists of '/' only (includes '')"""
+    for p in pieces(h):
+        l = lit(p)
+        if l is not None and l.strip('/'):
+            return z3.BoolVal(False)
+        if l is None and _nes(ctx, p):
+            return z3.BoolVal(False)
+    return z3.InRe(h, _ALL_SLASHES)
 
 
 def dirname(ctx, p):
@@ -105,22 +254,72 @@ def dirname(ctx, p):
         import posixpath
         return z3.StringVal(posixpath.dirname(l))
     h, _t = split_last_slash(ctx, p)
+    alls = all_slashes(ctx, h)
+    if z3.is_false(alls):
+        return rstrip_slashes(ctx, h)
+    if z3.is_true(z3.simplify(alls)):
+        return h
     d = rstrip_slashes(ctx, h)
-    return z3.If(z3.InRe(h, _ALL_SLASHES), h, d)
+    return z3.If(alls, h, d)
 
 
-def join2(a, b):
+def starts_with_slash(ctx, b):
+    """True / False / None (unknown syntactically)"""
+    ps = pieces(b)
+    if not ps:
+        return False
+    l = lit(ps[0])
+    if l is not None:
+        return l.startswith('/')
+    if _sl1(ctx, ps[0]):
+        return True
+    if ctx is not None and ps[0].get_id() in ctx.notes.get('noslash', ()):
+        if ps[0].get_id() in ctx.notes.get('nonempty', ()):
+            return False
+        # empty first piece: look at the rest
+        if len(ps) == 1:
+            return False
+        return None
+    return None
+
+
+def ends_with_slash_or_empty(ctx, a):
+    ps = pieces(a)
+    if not ps:
+        return True
+    l = lit(ps[-1])
+    if l is not None:
+        return l.endswith('/')
+    if _sl1(ctx, ps[-1]):
+        return True
+    if ctx is not None and _nes(ctx, ps[-1]):
+        return False
+    return None
+
+
+def join2(a, b, ctx=None):
     """posixpath.join(a, b)"""
-    return z3.If(z3.PrefixOf(SLASH, b), b,
-                 z3.If(z3.Or(a == EMPTY, z3.SuffixOf(SLASH, a)),
-                       z3.Concat(a, b),
-                       z3.Concat(a, SLASH, b)))
+    sw = starts_with_slash(ctx, b)
+    if sw is True:
+        return b
+    es = ends_with_slash_or_empty(ctx, a)
+    if es is True:
+        inner = cat(pieces(a) + pieces(b))
+    elif es is False:
+        inner = cat(pieces(a) + [SLASH] + pieces(b))
+    else:
+        inner = z3.If(z3.Or(a == EMPTY, z3.SuffixOf(SLASH, a)),
+                      z3.Concat(a, b), z3.Concat(a, SLASH, b))
+    if sw is False:
+        return inner
+    return z3.If(z3.PrefixOf(SLASH, b), b, inner)
 
 
-def join(*parts):
+def join(*parts, **kw):
+    ctx = kw.get('ctx')
     r = parts[0]
     for p in parts[1:]:
-        r = join2(r, p)
+        r = join2(r, p, ctx)
     return r
 
 
